@@ -1,4 +1,5 @@
 """C14 — alias rewriting is exact substitution on field references only."""
+import os
 import copy
 import common, driver, gens_ast, gens, impl
 from sexpr import enc
@@ -114,8 +115,54 @@ def run(ctx):
         ctx.broken.append(f"correspondence bijection-roundtrip: {len(bad)} trees not restored; first {bad[0][0][1]!r}")
         ctx.diffs += [("bijection-roundtrip", c, o, c[0]) for c, o in bad]
 
+    # FIRST USE in a process: what a rewriter does with a node kind must not depend on which SHAPE of that kind the process met first (a lambda-less any() before
+    # a lambda, a call without arguments before one with, an empty list before a full one ...): each sequence runs in a process of its own
+    import subprocess, json, sys
+    FIRST_USE = [({"a": "author/name"}, ["tags/any() and comments/any(c: c/by eq a)"]), ({"a": "author/name"}, ["x/any()", "comments/any(c: c/by eq a)", "c/all(t: t/a eq a)"]),
+                 ({"a": "author/name"}, ["comments/any(c: c/by eq a)", "x/any() and a eq 1"]), ({"a": "z", "d": "created"}, ["now() eq d", "concat(a, 'x') eq a and f.g(a) eq 1"]),
+                 ({"a": "z"}, ["f.g() eq 1", "f.g(a) eq 1", "f.g(p=a) eq 1"]), ({"a": "z"}, ["b in (1,)", "b in (a, 2)", "(a, b) eq (b, a)"]),
+                 ({"a": "z"}, ["1 eq 2", "a eq 1", "not a", "-a lt a"]), ({"x": "y"}, ["x/any()", "k/any(x: x eq 1) and x eq 2", "x/all(t: t eq x)"])]
+    PROG = r"""
+import sys, json
+sys.path.insert(0, sys.argv[1])
+from sexpr import enc
+from odata_query.grammar import ODataLexer, ODataParser
+from odata_query.rewrite import AliasRewriter
+m, fs = json.loads(sys.stdin.read())
+out = []
+rw = AliasRewriter(m)
+for f in fs:
+    t = ODataParser().parse(ODataLexer().tokenize(f))
+    try:
+        out.append(enc(rw.visit(t)))
+    except Exception as e:
+        out.append("raise:" + type(e).__name__)
+print(json.dumps(out))
+"""
+    fu_bad = []
+    for m, fs in FIRST_USE:
+        p = subprocess.run([sys.executable, "-c", PROG, common.HERE], input=json.dumps([m, fs]).encode(), stdout=subprocess.PIPE, stderr=subprocess.PIPE, timeout=120,
+                           env=dict(os.environ, PYTHONPATH=os.environ.get("ODATA_QUERY_REPO", "/repo")))
+        try:
+            got = json.loads(p.stdout.decode().strip().split("\n")[-1])
+        except Exception:  # noqa
+            fu_bad.append((m, fs, "<process failed: " + p.stderr.decode()[-200:] + ">", "")); continue
+        want = driver.run_batch([driver.req("alias", table(m), enc(impl.real_parse_ast(f))) for f in fs])
+        ctx.evaluations += len(fs)
+        for f, g_, w_ in zip(fs, got, want):
+            if g_ != w_:
+                fu_bad.append((m, fs, f, g_[:400]))
+    ctx.note(f"first use in a fresh process: {len(FIRST_USE)} sequences, {len(fu_bad)} rewrites differ from the substitution")
+    if fu_bad:
+        ctx.broken.append(f"in a fresh process the rewriter's result depends on what it rewrote first: alias map {fu_bad[0][0]} sequence {fu_bad[0][1]}: {fu_bad[0][2]!r}"[:600])
+
     def search(ctx):
         found = []
+        for m, fs, f, g_ in fu_bad[:10]:
+            found.append({"property": "C14", "alias_map": m, "sequence_in_a_fresh_process": fs, "filter": f, "real_result": g_, "why": "in a fresh process, after the earlier filters of the sequence, "
+                          "the rewrite of this filter is not the substitution", "signature": "C14:first-use", "replay": "fresh interpreter: rw = AliasRewriter(map); rw.visit(parse(f)) for f in the sequence"})
+        if found:
+            return found
         alias_c = [c for (n, c, r, m) in ctx.diffs if n == "alias-rewrite"]
         if alias_c or not ctx.diffs:
             cand = alias_c or cases
